@@ -701,6 +701,10 @@ def _c10_case(seed):
     files["core_plugins/__init__.py"] = ""
     files["core_plugins/builtin/__init__.py"] = ""
     files["core_plugins/builtin/x.py"] = "from .. import builtin\n"
+    # relative imports with a dotted module part (defect F10b: their 'parent modules' were taken from the text as written and showed up as external modules)
+    files["core/sub/__init__.py"] = ""
+    files["core/sub/deep.py"] = "from ..handlers import h\nfrom .. import m\n"
+    files["core/m.py"] += "from .sub.deep import thing\nfrom .sub import deep\n"
     ext_edges = set()
     add_imports(files, rng, rng.randint(6, 14), externals=EXTERNALS)
     edges = edges_of(files)
